@@ -19,7 +19,7 @@ TRUSTED = ['rustc MIR construction', 'std atomics', 'amfacts driver + rule engin
 DYN = 'entry::Dynamic'
 
 
-def field_refs(F, adt, field):
+def field_refs(F, adt, field, inner=False):
     """(body, bb, idx, stmt) taking a reference to adt.field"""
     out = []
     for b in F.fn_bodies():
@@ -35,6 +35,8 @@ def field_refs(F, adt, field):
             fs = [e for e in pl['p'] if isinstance(e, dict) and 'f' in e]
             if fs and fs[-1].get('n') == field and fs[-1].get('of') == adt:
                 out.append((b, bb, j, s))
+            elif inner and len(fs) >= 2 and fs[-2].get('n') == field and fs[-2].get('of') == adt:
+                out.append((b, bb, j, s))          # a reference to the only field of the newtype stored there
     return out
 
 
@@ -104,15 +106,24 @@ def r1(R1, cfg, F):
         R1.missing(cfg, 'single caller of swap_any (the writer)')
         return
     inc = F.callers_of(r'^entry::AtomicReloadId::increment$')
-    R1.check(inc == [w], cfg, 'entry::AtomicReloadId::increment', 'callers={writer}', 'increment may be called only from the writer %s; callers: %s' % (w, inc))
+    folded = not F.body('entry::AtomicReloadId::increment')
+    if folded:
+        # the one-line helper was written into its caller: the bump is the `fetch_add` on `….reload.0`, in the writer only
+        # (the loop below meets every reference to that field)
+        wb = F.body(w)
+        direct = [c for c in wb.calls() if c.callee and c.callee.name == 'fetch_add' and 'atomic::Atomic' in c.callee.best and 'reload' in (wb.access_path(c.args[0]) or [])]
+        R1.check(len(direct) == 1, cfg, 'entry::AtomicReloadId::increment', 'callers={writer}', 'the reload id must be bumped exactly once, by the writer %s; direct bumps there: %d' % (w, len(direct)))
+    else:
+        R1.check(inc == [w], cfg, 'entry::AtomicReloadId::increment', 'callers={writer}', 'increment may be called only from the writer %s; callers: %s' % (w, inc))
     # every use of Dynamic.reload
     n = 0
-    for b, bb, j, s in field_refs(F, DYN, 'reload'):
+    for b, bb, j, s in field_refs(F, DYN, 'reload', inner=True):
         cs, esc = consumers(b, s['place']['l'])
         for c in cs:
             nm = c.callee.best if c.callee else '?'
             n += 1
-            ok = nm in ('entry::AtomicReloadId::load',) or (nm == 'entry::AtomicReloadId::increment' and b.path == w)
+            ok = nm in ('entry::AtomicReloadId::load',) or (nm == 'entry::AtomicReloadId::increment' and b.path == w) \
+                or (folded and b.path == w and bool(re.search(r'atomic::Atomic::<usize>::fetch_add$|atomic::AtomicUsize::fetch_add$', nm)))
             R1.check(ok, cfg, b.path, 'Dynamic.reload->' + nm.split('::')[-1], 'the reload id of an entry may only be loaded, or incremented by the writer; `%s` is applied to it' % nm, c.loc())
         for a in esc:
             n += 1
